@@ -183,6 +183,21 @@ def run_bn(ns, c):
         if len(viol) > 2:
             break
     if c["track"] and not viol:
+        # an eval-mode forward on a batch of the *other* floating dtype (a float32 validation batch through a float64 layer or the reverse):
+        # the running statistics keep their dtype and their bytes
+        m.eval()
+        other_ = np.float32 if dt == np.float64 else np.float64
+        snap_o = (m.running_mean.data.dtype, m.running_var.data.dtype, m.running_mean.data.tobytes(), m.running_var.data.tobytes())
+        shp_o = {2: (4, C), 3: (4, C, 2), 4: (4, C, 2, 1)}[c["rank"]]
+        try:
+            with np.errstate(all="ignore"):
+                m(T(rng.standard_normal(shp_o).astype(other_)))
+            counters["eval_forwards_other_dtype"] = 1
+            if (m.running_mean.data.dtype, m.running_var.data.dtype, m.running_mean.data.tobytes(), m.running_var.data.tobytes()) != snap_o:
+                viol.append(V("bn:eval-changed-buffers:input-of-other-dtype", "an eval-mode forward on a batch of the other floating dtype changed the dtype or the bytes of the running statistics"))
+        except Exception:
+            counters["eval_forward_other_dtype_refused"] = 1
+        m.train() if training else m.eval()
         # tracking switched off on the live module (buffers exist): an eval-mode forward still leaves them alone
         m.track_running_stats = False
         m.eval()
